@@ -167,6 +167,103 @@ def make_chunks(vm, w, kind, content, n, max_chunks):
     return [stream[a:b] for a, b in zip(cuts, cuts[1:])]
 
 
+def lying_length(vm, max_chunks):
+    """The blob name is the hash of a content that is LONGER than the length the peer announces, and the peer then streams that
+    genuine content: no string of the announced length has this digest, so the blob must never become verified - whatever the
+    chunking (in particular a chunk that crosses the announced length and ends exactly at the end of the real content)."""
+    VM[0] = vm
+    LOOP[0] = ModelLoop()
+    n = vm.new_int('announced_length', 1, MAX_BLOB_SIZE)
+    d = vm.new_int('real_content_is_longer_by', 1, 1000)
+    head = vm.new_run_of_len('C', n)
+    real = head + vm.new_run_of_len('T', d)
+    blob_hash = vm.blob_hash(real)
+    completed = []
+    blob = BlobBuffer(LOOP[0], blob_hash, None, lambda b: completed.append(b))
+    blob.set_length(n)
+    writer = blob.get_blob_writer('1.2.3.4', 3333)
+    nch = vm.pick('nchunks', max_chunks) + 1
+    cuts = [0]
+    for j in range(nch - 1):
+        o = vm.new_int('cut', 0, 3 * 2 ** 20 + 1000)
+        vm.assume(o >= cuts[-1])
+        vm.assume(o <= n + d)
+        cuts.append(o)
+    cuts.append(n + d)
+    for a, b in zip(cuts, cuts[1:]):
+        try:
+            writer.write(real[a:b])
+        except OSError:
+            pass
+        except Exception as e:
+            return 'VIOLATION: writer.write raised %s' % type(e).__name__
+        LOOP[0].drain()
+        if blob.get_is_verified() or completed:
+            return 'VIOLATION: the blob became verified although the received bytes do not have the announced length'
+    fut = writer.finished
+    if fut.state != 'exception' or not isinstance(fut.value, (InvalidDataError, InvalidBlobHashError)):
+        return 'VIOLATION: a transfer longer than announced was not refused'
+    if not writer.closed():
+        return 'VIOLATION: the writer of a refused transfer stayed open'
+    return 'ok'
+
+
+def same_iteration(vm, n_losers):
+    """Two or three transfers reach their end within ONE event-loop iteration: the winner's last write completes a correct copy and,
+    before its completion callback has run, every other writer's last write ends its own transfer (wrong bytes of the right length, or
+    too many bytes) - or stays pending.  Once the callbacks run the blob is verified with the committed bytes, the completed callback
+    has run once, every writer is closed and deregistered, and nothing raises."""
+    VM[0] = vm
+    LOOP[0] = ModelLoop()
+    n = vm.new_int('n', 1, MAX_BLOB_SIZE)
+    content = vm.new_run_of_len('C', n)
+    blob_hash = vm.blob_hash(content)
+    completed = []
+    blob = BlobBuffer(LOOP[0], blob_hash, None, lambda b: completed.append(b))
+    blob.set_length(n)
+    winner = blob.get_blob_writer('1.2.3.0', 3333)
+    losers = []
+    for w in range(n_losers):
+        how = vm.pick('other_writer', 3)             # 0 still pending, 1 wrong bytes of the right length, 2 too many bytes
+        wr = blob.get_blob_writer('1.2.3.%d' % (w + 1), 3333)
+        if how == 1:
+            data = vm.new_run_of_len('X%d' % w, n)
+        elif how == 2:
+            data = content + vm.new_run_of_len('E%d' % w, vm.new_int('extra', 1, 1000))
+        else:
+            data = None
+        losers.append((wr, data, vm.pick('writes_before_the_winner', 2)))
+    try:
+        for wr, data, before in losers:
+            if data is not None and before:
+                wr.write(data)
+        winner.write(content)
+        for wr, data, before in losers:
+            if data is not None and not before:
+                try:
+                    wr.write(data)
+                except OSError:
+                    pass
+    except Exception as e:
+        return 'VIOLATION: writer.write raised %s' % type(e).__name__
+    try:
+        LOOP[0].drain()                                # now the callbacks of this iteration run
+    except Exception as e:
+        return 'VIOLATION: a completion callback raised %s' % type(e).__name__
+    if not blob.get_is_verified():
+        return 'VIOLATION: a complete correct copy did not verify the blob'
+    if not vm.same_bytes(blob._verified_bytes.getvalue(), content):
+        return 'VIOLATION: the stored bytes are not the committed content'
+    if len(completed) != 1:
+        return 'VIOLATION: the completed callback ran %d times' % len(completed)
+    for wr, data, before in losers:
+        if not wr.closed():
+            return 'VIOLATION: a writer was left open after the blob was verified'
+    if not winner.closed() or blob.writers:
+        return 'VIOLATION: writers are still registered after the blob was verified'
+    return 'ok'
+
+
 def run(vm, n_writers, max_chunks, steps, kinds):
     VM[0] = vm
     LOOP[0] = ModelLoop()
@@ -344,6 +441,16 @@ def native_setup(nvm, job):
 
 def jobs(tier):
     out = []
+
+    out.append(dict(name='name-commits-to-longer-content', family='write', fn='lying_length', args=(2 if tier == 'quick' else 3,), loop_bound=200,
+                    max_depth=60, cost=200, bounds=dict(announced_length='1..2 MiB symbolic', real_content='1..1000 bytes longer, symbolic',
+                                                        chunks='1..%d at symbolic offsets' % (2 if tier == 'quick' else 3)), must_reach=('ok',)))
+
+    for n_losers in ((1, 2) if tier == 'quick' else (1, 2, 3)):
+        out.append(dict(name=f'same-iteration-{n_losers}-other-writers', family='write', fn='same_iteration', args=(n_losers,), loop_bound=200,
+                        max_depth=60, cost=100 * 6 ** n_losers,
+                        bounds=dict(other_writers=n_losers, each='pending / ends with wrong bytes / ends over-long, before or after the winner',
+                                    callbacks='all run after the last write of the iteration'), must_reach=('ok',)))
 
     def job(w, c, steps, kinds, cost):
         tag = ''.join(map(str, kinds)) if kinds else 'any'
